@@ -155,6 +155,133 @@ func vC18GenTime(t *rapid.T, label string, unit rune, yearSpan ...int) time.Time
 	return vC18Date(y, time.Month(m), d, h)
 }
 
+// vC18EdgePoints lists the times aligned to unit that lie within 2 units of a coarser-unit boundary
+// (1 Jan, 31 Dec, first / last day of every month, 28/29 Feb, 1 Mar) in the years ylo..yhi (plus 1 Jan yhi+1).
+func vC18EdgePoints(unit rune, ylo, yhi int) []time.Time {
+	seen := map[int64]bool{}
+	var out []time.Time
+	add := func(t time.Time) {
+		if !seen[t.Unix()] {
+			seen[t.Unix()] = true
+			out = append(out, t)
+		}
+	}
+	switch unit {
+	case 'Y':
+		for y := ylo - 1; y <= yhi+2; y++ {
+			add(vC18Date(y, 1, 1, 0))
+		}
+	case 'M':
+		for m := vC18Date(ylo, 1, 1, 0); !m.After(vC18Date(yhi+1, 3, 1, 0)); m = vgtNext(m, 'M') {
+			add(m)
+		}
+	default:
+		var anchors []time.Time
+		for m := vC18Date(ylo, 1, 1, 0); !m.After(vC18Date(yhi+1, 1, 1, 0)); m = vgtNext(m, 'M') {
+			anchors = append(anchors, m)
+			if unit == 'H' {
+				anchors = append(anchors, m.AddDate(0, 0, -1)) // 00:00 of the last day of the previous month
+			}
+			if m.Month() == 2 {
+				anchors = append(anchors, vC18Date(m.Year(), 2, 28, 0))
+			}
+		}
+		for _, a := range anchors {
+			for k := -2; k <= 2; k++ {
+				add(vgtAdd(a, unit, k))
+			}
+		}
+	}
+	sort.Slice(out, func(i, j int) bool { return out[i].Before(out[j]) })
+	return out
+}
+
+// vC18EdgeSpan bounds end-start by the coarsest unit of the quantum (the number of views, hence the cost of a
+// case, grows with span / coarsest unit): 3 years when months or years exist, else 100 days / 4 days.
+func vC18EdgeSpan(q TimeQuantum) time.Duration {
+	switch vgtCoarsest(q) {
+	case 'Y', 'M':
+		return (3*366 + 5) * 24 * time.Hour
+	case 'D':
+		return 100 * 24 * time.Hour
+	}
+	return 4 * 24 * time.Hour
+}
+
+// TestVerifC18_RangeEdges: every pair start<end of points near coarser-unit boundaries (both endpoints within 2
+// finest units of a month / year boundary or of 28 Feb), spanning up to 3 years, for all 10 quanta. Reaches the
+// ranges that end or start just short of a year or month boundary a whole number of coarser units away.
+func TestVerifC18_RangeEdges(t *testing.T) {
+	defer vkit.Flush()
+	shard, n := vC18Shard()
+	ylo, yhi := 2019, 2021
+	if vkit.Thorough() {
+		ylo, yhi = 2015, 2025
+	}
+	idx := 0
+	for _, q := range vgtQuanta {
+		unit := vgtFinest(q)
+		pts := vC18EdgePoints(unit, ylo, yhi)
+		span := vC18EdgeSpan(q)
+		for i, start := range pts {
+			idx++
+			if idx%n != shard {
+				continue
+			}
+			for _, end := range pts[i+1:] {
+				if end.Sub(start) > span {
+					break
+				}
+				c := vkit.NewCase().Key("edge", q, start.Unix(), end.Unix())
+				views, err := vC18CheckRange(q, start, end)
+				if err != nil {
+					c.Done()
+					t.Fatalf("viewsByTimeRange(%s, %s, %s): %v\nviews(%d): %v", q, start.Format(vC18Layout), end.Format(vC18Layout), err, len(views), views)
+				}
+				used := vgtUnitsUsed(viewStandard, views)
+				me, ye, ld := vgtCrossing(start, end)
+				wholeYear := end.Sub(start) >= 360*24*time.Hour
+				c.Class("q:" + string(q)).Class("units:" + used)
+				c.ClassIf(me, "crossesMonthEnd").ClassIf(ye, "crossesYearEnd").ClassIf(ld, "coversFeb29").ClassIf(wholeYear, "spansAboutAYearOrMore")
+				c.NT(me || ye || ld || len(used) >= 3)
+				if len(used) >= 3 {
+					c.Sample(map[string]interface{}{"q": q, "start": start.Format(vC18Layout), "end": end.Format(vC18Layout), "views": len(views), "units": used})
+				}
+				c.Done()
+			}
+		}
+	}
+	vkit.Extra("exhaustive", true)
+	vkit.Extra("edges", "all pairs of points within 2 finest units of 1 Jan / 31 Dec / first and last day of each month / 28 Feb, years 2019-2021 (thorough 2015-2025), span <= 3 years (100 days / 4 days when the coarsest unit is D / H)")
+}
+
+// vC18GenEdge draws a time aligned to unit within 2 units of a coarser-unit boundary.
+func vC18GenEdge(t *rapid.T, label string, unit rune, ylo, yhi int) time.Time {
+	y := rapid.IntRange(ylo, yhi).Draw(t, label+".y")
+	if unit == 'Y' {
+		return vC18Date(y, 1, 1, 0)
+	}
+	var a time.Time
+	switch rapid.SampledFrom([]string{"jan1", "jan1", "dec31", "dec31", "first", "last", "feb28", "mar1"}).Draw(t, label+".anchor") {
+	case "jan1":
+		a = vC18Date(y, 1, 1, 0)
+	case "dec31":
+		a = vC18Date(y, 12, 31, 0)
+	case "first":
+		a = vC18Date(y, time.Month(rapid.IntRange(1, 12).Draw(t, label+".m")), 1, 0)
+	case "last":
+		a = vC18Date(y, time.Month(rapid.IntRange(1, 12).Draw(t, label+".m"))+1, 0, 0)
+	case "feb28":
+		a = vC18Date(y, 2, 28, 0)
+	default:
+		a = vC18Date(y, 3, 1, 0)
+	}
+	if unit == 'M' {
+		return vgtAdd(vgtTrunc(a, 'M'), 'M', rapid.IntRange(-1, 1).Draw(t, label+".k"))
+	}
+	return vgtAdd(a, unit, rapid.IntRange(-2, 2).Draw(t, label+".k"))
+}
+
 // TestVerifC18_LongRanges: random long aligned ranges (years apart, any calendar position).
 func TestVerifC18_LongRanges(t *testing.T) {
 	defer vkit.Flush()
@@ -171,7 +298,11 @@ func TestVerifC18_LongRanges(t *testing.T) {
 		}
 		a := vC18GenTime(t, "a", unit, ylo, yhi)
 		var b time.Time
-		if rapid.IntRange(0, 3).Draw(t, "near") == 0 {
+		if mode := rapid.IntRange(0, 5).Draw(t, "near"); mode >= 4 {
+			// both endpoints within 2 finest units of a coarser-unit boundary, any year (other leap years than the edges unit)
+			a = vC18GenEdge(t, "ea", unit, ylo, yhi)
+			b = vC18GenEdge(t, "eb", unit, ylo, yhi)
+		} else if mode == 0 {
 			// end a few coarser units after the start, same finest-unit alignment
 			cu := rapid.SampledFrom([]rune(string(q))).Draw(t, "cu")
 			b = vgtAdd(vgtTrunc(a, cu), cu, rapid.IntRange(0, 14).Draw(t, "k"))
